@@ -220,6 +220,8 @@ func (x *Exec) execFor(st *State, s *ast.ForStmt, label string) *State {
 	defer func() { x.loopEntry = x.loopEntry[:len(x.loopEntry)-1] }()
 	x.havocLoop(st, s.Body, s.Post, s.Cond)
 	x.assumeInvs(st, li)
+	x.iterStart = append(x.iterStart, st.clone())
+	defer func() { x.iterStart = x.iterStart[:len(x.iterStart)-1] }()
 	var exit *State
 	body := st
 	if s.Cond != nil {
@@ -245,6 +247,13 @@ func (x *Exec) execFor(st *State, s *ast.ForStmt, label string) *State {
 		}
 		if back != nil {
 			x.checkInvs(back, li, "inv-keep", s)
+			if li != nil {
+				// progress clauses: hold whenever control returns to the loop head
+				for _, pc := range li.Progress {
+					g := x.evalSpec(back, pc.Expr)
+					x.oblige(back, "progress", fmt.Sprintf("loop%d.%s", li.Ordinal, pc.Label), g, s)
+				}
+			}
 			if d0 != nil {
 				d1 := x.evalDecreases(back, li.Decreases)
 				x.oblige(back, "dec", fmt.Sprintf("loop%d", li.Ordinal), lexLess(d1, d0), s)
